@@ -20,7 +20,9 @@ import (
 // C17 — rendered balance tables are rectangular and numerically faithful.
 
 var c17Amounts = []string{"0", "0.00000001", "0.4", "0.5", "0.05", "0.005", "0.0005", "0.4995", "499.5", "500", "999.5", "999.95", "999.995", "1000", "999999.5",
-	"1234567.891", "1000000000000000", "12.345", "2.5", "1.5"}
+	"1234567.891", "1000000000000000", "12.345", "2.5", "1.5",
+	// coefficients beyond int64 / float64 precision at 8 decimals: 2^64+1 and 2^64 (truncate to 1 and 0), 1e15 + 1e-8
+	"184467440737.09551617", "184467440737.09551616", "1000000000000000.00000001"}
 
 func c17All() []string {
 	var res []string
@@ -336,7 +338,7 @@ func init() {
 	core.Register(&core.Check{
 		ID: "C17", Level: "model_checking", Run: c17Run, Replay: c17Replay,
 		QuickBudget: 90 * time.Second, ThoroughBudget: 14 * time.Minute,
-		Rule: "tables built through the real table API with every ordered pair (2 rows) and triple (3 columns) of 39 signed amounts (1e-8 .. 1e15, rounding boundaries x.5, 999.5, 999.95, 0.0005 for -k) x digits {0,1,2,3,8} x thousands on/off x ASCII/umlaut/CJK/long names x indents; " +
+		Rule: "tables built through the real table API with every ordered pair (2 rows) and triple (3 columns) of 45 signed amounts (1e-8 .. 1e15, rounding boundaries x.5, 999.5, 999.95, 0.0005 for -k) x digits {0,1,2,3,8} x thousands on/off x ASCII/umlaut/CJK/long names x indents; " +
 			"the text rendering is parsed with a geometry-checking reader and every numeric cell compared with a big-rational reference formatter; CSV compared exactly; command level: amounts placed in journals, balance text vs --csv row by row",
 		Assumptions: []string{"a negative amount whose rounded magnitude is zero may be shown as 0 or -0 (the statement does not decide)", "width is measured in runes (as the statement's mechanism says), not terminal cells"},
 	})
